@@ -1,6 +1,7 @@
 (* C04 — property theorems only (model: Reader/Model.v, proofs: Reader/Proofs.v, C04/Proofs.v) *)
 From Coq Require Import List String NArith ZArith Bool.
 From Verif Require Import Base.Util Reader.Model Reader.Script Reader.Proofs C04.Check C04.Proofs Reader.Example.
+From Verif Require C04.Once C04.OCheck.
 Import ListNotations.
 Local Open Scope string_scope.
 Local Open Scope N_scope.
@@ -44,6 +45,16 @@ Definition ex_drop : list label :=
                          p_msgs := [{| m_kind := KDropColl; m_id := 5; m_coll := 101; m_part := 0; m_pname := ""; m_ts := 15; m_rows := O; m_pospch := true |}] |} [];
    StartColl {| ci_id := 101; ci_name := "c1"; ci_tid := 9101; ci_src := [("s_v0", "s0"); ("s_v1", "s1")]; ci_tgt := [("t_v0", "t0"); ("t_v1", "t1")];
                 ci_parts := [("_default", 7%Z)]; ci_dropped := false; ci_seek := [] |}].
+
+(* the once-only signal of a shard to a drop barrier (OnceWriteChan.Write): whatever the schedule of the goroutines that reach it
+   - the pack a handler generates for an object dropped while CDC was down and the real drop message of the stream may arrive at the
+   same time - at most one signal reaches the barrier, so a shard is counted once; a test-then-send variant is refuted *)
+Theorem C04_shard_signals_once : forall ls, (Once.o_sent (Once.orun true ls) <= 1)%nat.
+Proof. exact Once.once_at_most_one. Qed.
+Print Assumptions C04_shard_signals_once.
+Theorem C04_test_then_send_refuted : Once.o_sent (Once.orun false [Once.OCall 0; Once.OCall 1; Once.ORecv; Once.ORecv]) = 2%nat.
+Proof. exact Once.test_then_send_refuted. Qed.
+Print Assumptions C04_test_then_send_refuted.
 
 Example C04_nonvacuous :
   events (run 3 (firstn 2 ex_drop)) = [] /\ events (run 3 ex_drop) = [EvDropColl 101 15] /\ cnt 101 (run 3 ex_drop) = 1%nat
